@@ -221,25 +221,34 @@ def run(ctx, report: Report) -> None:
                     continue
                 r3.violation(f'{k} -> {h} group {g}', pmod.where(hfn),
                              f'{h} reads m.group({g!r}) but the {k} token pattern defines no such group (IndexError at parse time)')
-    # pseudo-class tables
-    simple = inv.const('css_parser', 'PSEUDO_SIMPLE')
+    # pseudo-class tables: what `:name` does to the selector under construction (partial evaluation of parse_pseudo_class)
+    from .sem import pseudo_table
     _, pc = src.func('css_parser.CSSParser.parse_pseudo_class')
-    compared = set()
-    for n in ast.walk(pc):
-        if isinstance(n, ast.Compare) and isinstance(n.left, ast.Name) and n.left.id == 'pseudo':
-            v = inv.folder.try_ev('css_parser', n.comparators[0], default=None)
-            if isinstance(v, str):
-                compared.add(v)
-            elif isinstance(v, (tuple, frozenset)) and len(v) < 6:
-                compared.update(v)
-    for name in sorted(simple):
-        ok = name in compared
-        r3.instance({'simple_pseudo': name, 'has_branch': ok}, key='ps-' + name)
+    ptab = pseudo_table(ctx)
+    sel_flag = {':root': 'SEL_ROOT', ':defined': 'SEL_DEFINED', ':scope': 'SEL_SCOPE', ':empty': 'SEL_EMPTY'}
+    nth_names = {':first-child', ':last-child', ':first-of-type', ':last-of-type', ':only-child', ':only-of-type'}
+    for name, row in sorted(ptab.items()):
+        effect = bool(row['flags'] or row['consts'] or row['nth'] or row['other'])
+        if name in sel_flag:
+            want = {'flags': inv.folder.lookup('css_types', sel_flag[name]), 'consts': []}
+        elif name in nth_names:
+            want = None         # the An+B records are compared by C02-R3
+        else:
+            want = {'flags': 0, 'consts': ['CSS_LINK' if name == ':any-link' else 'CSS_' + name[1:].upper().replace('-', '_')]}
+        ok = effect and row['raises'] is None and not row['other'] and (
+            want is None or (row['flags'] == want['flags'] and row['consts'] == want['consts'] and not row['nth']))
+        r3.instance({'simple_pseudo': name, 'flags_set': row['flags'], 'definitions_appended': row['consts'],
+                     'nth_records': len(row['nth']), 'raises': row['raises'], 'expected': want}, key='ps-' + name)
         r3.obligation(ok)
-        if not ok:
+        if not effect and row['raises'] is None:
             r3.violation(f'PSEUDO_SIMPLE {name} no branch', pmod.where(pc),
-                         f'{name} is listed in PSEUDO_SIMPLE but parse_pseudo_class has no branch for it: it is accepted and '
+                         f'{name} is listed in PSEUDO_SIMPLE but parsing it leaves the selector unchanged: it is accepted and '
                          f'matches like the universal selector')
+        elif not ok:
+            r3.violation(f'PSEUDO_SIMPLE {name} effect', pmod.where(pc),
+                         f'parsing {name} sets flags {row["flags"]:#x}, appends {row["consts"]}, {len(row["nth"])} nth record(s)'
+                         f'{", raises " + row["raises"] if row["raises"] else ""}{", touches " + str(row["other"]) if row["other"] else ""}; '
+                         f'expected {want}: the pseudo-class is bound to the wrong definition')
     special_names = set()
     for row in getattr(inv, 'special_table', ()):
         special_names.update(row[1])
